@@ -5,19 +5,21 @@ import corr_history as H
 
 PID = "C11"
 PROPS_MODULE = "Props.C11"
-THEOREMS = ["step_atomic"]
+THEOREMS = ["pure_sound", "atomic_sound", "all_calculations_pure", "all_mutators_atomic", "setup_returns_fresh", "step_atomic"]
 REQUIRED = ["Props/C11.v"]
-TRANSLATORS = ["tr_pure", "tr_data", "tr_tables"]
+TRANSLATORS = ["tr_effects", "tr_pure", "tr_data", "tr_tables"]
 SHAPE_KEYS = ["inventory.py::", "decaydata.py::DecayMatrices", "decaydata.py::DecayData::__init__", "load_dataset",
               "add_dictionaries", "sort_dictionary_alphabetically"]
 PARTIAL = ["bit-for-bit immutability of the Python objects (NumPy arrays, SciPy/SymPy matrices shared by all inventories of a data set) is a "
            "runtime property: the model states purity of the functional state machine and failure atomicity; that the real methods neither write "
            "the shared templates nor their operands is decided by fingerprinting every live object and the data set after every step of random "
            "interleavings, and by the recorded source text of every modelled method (any edit breaks the tie)",
-           "no verified effect analysis of the Python source (planned effect IR not built)"]
+           "the effect summaries (Gen/EffectsGen.v) are extracted from the Python AST by tools/tr_effects.py (trusted translator): branches and loops are flattened, "
+           "library calls are taken to return new objects and not to retain or mutate their arguments"]
 TRUSTED_BASE = [
     "Coq 8.16.1 kernel",
-    "axioms: none for the state-machine theorems",
+    "axioms: none for the effect-checker and state-machine theorems",
+    "translator tools/tr_effects.py (effect summaries of every method of inventory.py)",
     "tr_shapes.py source-text ties of every method of inventory.py and of the data-set templates",
     "fingerprint harness tools/impl_history.py (array bytes, CSR triplets, srepr of SymPy objects, instance attribute names)",
 ]
